@@ -5,6 +5,7 @@ import Dasp.Model.Ring
     bounded <arr|vec|box|mut> raw <start> <len> <cap> d0 … d(cap-1) | op …
     bounded <kind> full <cap> d… | op …          bounded <kind> empty <cap> d… | op …
     fixed   <kind> raw <first> <n> d0 … d(n-1) | op …      fixed <kind> from <n> d… | op …
+    (fixed also accepts the kinds tarr|tvec|tbox|tmut: the same storage holding owned non-Copy elements)
 
     reply: `panic` if the constructor panics, else one token per op. A token `OOB` is appended
     to an op's reply if the model's recorded accesses of that call leave the backing slice. -/
@@ -34,6 +35,10 @@ private def splitBar : List String → Option (List String × List String)
   | t :: rest => (splitBar rest).map fun (a, b) => (t :: a, b)
 
 private def kindOk (k : String) : Bool := k == "arr" || k == "vec" || k == "box" || k == "mut"
+/-- `Fixed` is also run with owned, drop-tracked (non-Copy) elements: kinds `tarr`, `tvec`, `tbox`, `tmut`;
+    the element type does not change what the model returns -/
+private def fixedKindOk (k : String) : Bool :=
+  kindOk k || k == "tarr" || k == "tvec" || k == "tbox" || k == "tmut"
 
 /-- `<n> d0 … d(n-1)` -/
 private def dataOf? (ts : List String) : Option (List Int) :=
@@ -134,7 +139,7 @@ private def runFixed (f : Fixed Int) (ops : List (FOp Int × Bool)) : String :=
 def fixedLine (args : List String) : String :=
   match args with
   | kind :: ctor :: rest =>
-    if !kindOk kind then "bad-op" else
+    if !fixedKindOk kind then "bad-op" else
     match splitBar rest with
     | none => "bad-op"
     | some (hd, opToks) =>
